@@ -26,6 +26,7 @@ func ZzC17() {
 	zz.Assert(s.Append(ctx, chain[:N0]...) == nil, "Append ok")
 	zz.Assert(s.Sync(ctx) == nil, "Sync ok")
 	d.gates = true
+	d.gatesAfter = zz.Param("POSTGATES", 0) == 1 // a second scheduling point after each datastore read
 
 	// the writers' runs: sub-runs of chain[2..K+1], disjoint or overlapping
 	type run struct{ i, j int }
